@@ -3,12 +3,18 @@ seeded change (wtcheck.sh) and record the new output in seeded/<id>/meta.json wi
 import json, os, subprocess, sys
 VERIF = os.path.dirname(os.path.dirname(os.path.abspath(__file__)))
 sid, note = sys.argv[1], sys.argv[2]
+other = sys.argv[3] if len(sys.argv) > 3 else None     # the registered check of ANOTHER property that reports it
 f = os.path.join(VERIF, "seeded", sid, "meta.json")
 m = json.load(open(f))
-out = subprocess.run([os.path.join(VERIF, "wtcheck.sh"), sid, m["property"]], capture_output=True, text=True).stdout
+out = subprocess.run([os.path.join(VERIF, "wtcheck.sh"), sid, other or m["property"]], capture_output=True, text=True).stdout
 lines = [l.split(": ", 1)[1] if l.startswith(sid + " ") else l for l in out.splitlines() if l.strip() and "conda" not in l]
 det = any("VIOLATION property=" in l for l in lines)
-if det:
+if det and other:
+    m["detected_by"] = other
+    m["other_check_output"] = lines
+    m["detected_after"] = note
+    json.dump(m, open(f, "w"), indent=1)
+elif det:
     m["check_output"] = lines
     m["detected"] = True
     m["detected_after"] = note
